@@ -16,8 +16,9 @@ sys.path.insert(0, os.path.join(VERIF, 'tools'))
 import cxx2c, contracts as ct   # noqa
 
 CBMC_CHECKS = ['--bounds-check', '--pointer-check', '--pointer-overflow-check', '--div-by-zero-check',
-               '--undefined-shift-check', '--signed-overflow-check', '--conversion-check',
-               '--pointer-primitive-check']
+               '--undefined-shift-check', '--signed-overflow-check', '--pointer-primitive-check']
+# --conversion-check is opt-in per group (key extra_checks): it also flags well-defined truncating
+# integer conversions such as (uint16_t)((b << 8) | (b >> 8)), which are not errors
 MEM_KB = 24 * 1024 * 1024
 
 
@@ -30,7 +31,7 @@ def run(cmd, timeout, cwd=None, stdout=None, mem_kb=MEM_KB):
     t0 = time.time()
     try:
         r = subprocess.run(['bash', '-c', pre + 'exec "$@"', 'x'] + cmd, cwd=cwd, timeout=timeout,
-                           stdout=stdout if stdout else subprocess.PIPE, stderr=subprocess.PIPE, text=True)
+                           stdout=stdout if stdout else subprocess.PIPE, stderr=subprocess.PIPE, text=True, errors='replace')
         return r.returncode, (r.stdout if not stdout else ''), r.stderr, time.time() - t0
     except subprocess.TimeoutExpired:
         return 'timeout', '', '', time.time() - t0
@@ -112,7 +113,10 @@ def build_group_c(g, L0, allc, scratch, vacuity=False):
     inc = ''.join('#include "%s"\n' % os.path.join(VERIF, h) for h in g.get('spec_headers', []))
     models = ''.join('#include "%s"\n' % os.path.join(VERIF, h) for h in g.get('models', []))
     with open(cfile, 'w') as f:
-        f.write('#define VF_CBMC 1\n#include "%s"\n' % os.path.join(VERIF, 'include/vf.h'))
+        f.write('#define VF_CBMC 1\n')
+        for k, v in g.get('defines', {}).items():
+            f.write('#define %s %s\n' % (k, v))
+        f.write('#include "%s"\n' % os.path.join(VERIF, 'include/vf.h'))
         f.write('/* ---- lowered from %s by cxx2c (types, prototypes) ---- */\n' % g['tu'])
         f.write(part1)
         f.write('/* ---- spec functions and environment models ---- */\n')
@@ -124,14 +128,12 @@ def build_group_c(g, L0, allc, scratch, vacuity=False):
         f.write('#define VF_ENTRY_%s 1\n' % g['entry'])
         for gv in L.needed_globals:
             f.write('#define VF_HAS_%s 1\n' % L.global_name(gv))
-        for k, v in g.get('defines', {}).items():
-            f.write('#define %s %s\n' % (k, v))
         f.write('#include "%s"\n' % os.path.join(VERIF, g['harness']))
     return cfile, tab, L
 
 
 def parse_cbmc_json(path):
-    with open(path) as f:
+    with open(path, errors='replace') as f:
         txt = f.read()
     try:
         data = json.loads(txt)
@@ -219,13 +221,19 @@ def cbmc_group(g, cfile, scratch, tag, props=None, trace=True):
     if rc != 0:
         raise Undecided('goto-instrument failed for %s:\n%s' % (g['name'], (out + err)[-3000:]))
     instr_log = out + err
-    cb = ['cbmc', base + '.b.gb', '--object-bits', str(g.get('object_bits', 12))] + CBMC_CHECKS
+    cb = ['cbmc', base + '.b.gb', '--object-bits', str(g.get('object_bits', 12)), '--no-malloc-may-fail'] + [
+        c for c in CBMC_CHECKS if c not in g.get('drop_checks', [])]
+    for c in g.get('drop_checks', []):
+        cb.append('--no-' + c[2:])   # cbmc 6 turns the standard checks on by default
+    cb += g.get('extra_checks', [])
     if g.get('leak_check'):
         cb += ['--memory-leak-check']
     if g.get('unwind') is not None:
         cb += ['--unwind', str(g['unwind']), '--unwinding-assertions']
     for k, v in g.get('unwindset', {}).items():
         cb += ['--unwindset', '%s:%d' % (k, v)]
+    if g.get('unwindset') and g.get('unwind') is None:
+        cb += ['--unwinding-assertions']
     cb += g.get('cbmc_flags', [])
     if props:
         for p in props:
@@ -295,6 +303,8 @@ def native_replay(g, L, allc, inputs_path, scratch, pid):
             if flat and flat in allc:
                 f.write(ct.native_macros(allc[flat], None) + '\n')
     with open(drv, 'w') as f:
+        for k, v in g.get('defines', {}).items():
+            f.write('#define %s %s\n' % (k, v))
         for s in g.get('native_include', [g['tu']]):
             f.write('#include "%s"\n' % (s if os.path.isabs(s) else os.path.join(REPO, s)))
         f.write('#include "%s"\n' % os.path.join(VERIF, 'include/vf.h'))
@@ -305,8 +315,6 @@ def native_replay(g, L, allc, inputs_path, scratch, pid):
         f.write('#define VF_ENTRY_%s 1\n' % g['entry'])
         for gv in L.needed_globals:
             f.write('#define VF_HAS_%s 1\n' % L.global_name(gv))
-        for k, v in g.get('defines', {}).items():
-            f.write('#define %s %s\n' % (k, v))
         f.write('#include "%s"\n' % os.path.join(VERIF, g['harness']))
         f.write('int main(int argc, char **argv) { if (argc > 1) vf_load(argv[1]); %s(); '
                 'printf(vf_failed ? "VF_RESULT FAIL\\n" : "VF_RESULT PASS\\n"); return vf_failed ? 1 : 0; }\n'
@@ -378,7 +386,8 @@ def process_group(args):
         # vacuity of the enforced contract: ensures(false) must FAIL
         if enforce and not failed and not g.get('skip_vacuity'):
             cf2, _, _ = build_group_c(g, L0, allc, scratch, vacuity=True)
-            rv = cbmc_group(g, cf2, scratch, '.vac', trace=False)
+            npost = len(allc[enforce].ensures) + 1
+            rv = cbmc_group(g, cf2, scratch, '.vac', trace=False, props=['%s.postcondition.%d' % (enforce, npost)])
             if rv['status'] in ('timeout', 'error'):
                 res['undecided'] = '%s: vacuity run %s' % (g['name'], rv['status'])
                 return res
